@@ -14,4 +14,7 @@ CASES = [
     dict(expect="silent", desc="take_last_with_time: flipped spelling of both tests", edits=[
         dict(file=O + "_takelastwithtime.py", old='if now - _next["interval"] < duration:', new='if duration > now - _next["interval"]:'),
         dict(file=O + "_takelastwithtime.py", old='while q and now - q[0]["interval"] >= duration:', new='while q and duration <= now - q[0]["interval"]:')]),
+    dict(expect="fire", desc="pre-fix: timeout_with_mapper fallback without scheduler on completion", names="F0-scheduler-forwarded", edits=[dict(file="reactivex/operators/_timeoutwithmapper.py",
+         old="                    if timer_wins():\n                        subscription.disposable = other_.subscribe(\n                            observer, scheduler=scheduler\n                        )\n\n                d.disposable",
+         new="                    if timer_wins():\n                        subscription.disposable = other_.subscribe(observer)\n\n                d.disposable")]),
 ]
